@@ -431,57 +431,60 @@ theorem listener_subscription (names : List String) (evs : List String) (h : poo
       exact List.getElem_mem _
 
 
-/-- an accepted [eventlistener:x] section: its pool is subscribed to the listed events, has a buffer of at least
-    one event, does not redirect stderr, and its processes are those of the section -/
+/-- an accepted [eventlistener:x] section: the pool's name is the validated, stripped section suffix (fix F32);
+    it is subscribed to the listed events, has a buffer of at least one event, does not redirect stderr, and
+    its processes are those of the section -/
 theorem listenerGroup_ok (cx : Ctx) (sec : Section) (g : GConfig) (h : listenerGroup cx sec = .ok g) :
     ∃ names evs,
+      processOrGroupName (afterPrefix "eventlistener:" sec.name) = .ok g.name ∧
       (getField cx.penv "eventlistener" sec "events" [] (hereExps cx) >>= asStrs) = .ok names ∧ names ≠ [] ∧
       poolEvents names = .ok evs ∧ g.pool_events = sortBy strLt (dedup evs) ∧
-      g.kind = .pool ∧ 1 ≤ g.buffer_size ∧
+      g.kind = .pool ∧ 1 ≤ g.buffer_size ∧ g.result_handler ∈ cx.handlers ∧
       (getField cx.penv "eventlistener" sec "redirect_stderr" [] (hereExps cx) >>= asBool) = .ok false ∧
-      processesFromSection cx .listener sec (afterPrefix "eventlistener:" sec.name) (afterPrefix "eventlistener:" sec.name) = .ok g.procs := by
+      processesFromSection cx .listener sec (afterPrefix "eventlistener:" sec.name) g.name = .ok g.procs := by
   unfold listenerGroup at h
   dsimp only at h
+  cases h0 : processOrGroupName (afterPrefix "eventlistener:" sec.name) with
+  | error e => rw [h0] at h; cases h
+  | ok poolName =>
+  rw [h0] at h; dsimp only at h
   cases h1 : (getField cx.penv "eventlistener" sec "priority" [] (hereExps cx) >>= asInt) with
-  | error e => rw [h1] at h; contradiction
+  | error e => rw [h1] at h; cases h
   | ok priority =>
   rw [h1] at h; dsimp only at h
   cases h2 : (getField cx.penv "eventlistener" sec "buffer_size" [] (hereExps cx) >>= asInt) with
-  | error e => rw [h2] at h; contradiction
+  | error e => rw [h2] at h; cases h
   | ok bs =>
   rw [h2] at h; dsimp only at h
   by_cases hb : pgfp_g5 bs 0 = true
-  · rw [if_pos hb] at h; contradiction
+  · rw [if_pos hb] at h; cases h
   rw [if_neg hb] at h
   cases h3 : (getField cx.penv "eventlistener" sec "result_handler" [] (hereExps cx) >>= asStr) with
-  | error e => rw [h3] at h; contradiction
+  | error e => rw [h3] at h; cases h
   | ok handler =>
   rw [h3] at h; dsimp only at h
-  by_cases hd : strStartsWith "." handler = true
-  · rw [if_pos hd] at h; contradiction
-  rw [if_neg hd] at h
   by_cases hr : (!cx.handlers.contains handler) = true
-  · rw [if_pos hr] at h; contradiction
+  · rw [if_pos hr] at h; cases h
   rw [if_neg hr] at h
   cases h4 : (getField cx.penv "eventlistener" sec "events" [] (hereExps cx) >>= asStrs) with
-  | error e => rw [h4] at h; contradiction
+  | error e => rw [h4] at h; cases h
   | ok names =>
   rw [h4] at h; dsimp only at h
   by_cases hne : names.isEmpty = true
-  · rw [if_pos hne] at h; contradiction
+  · rw [if_pos hne] at h; cases h
   rw [if_neg hne] at h
   cases h5 : poolEvents names with
-  | error e => rw [h5] at h; contradiction
+  | error e => rw [h5] at h; cases h
   | ok evs =>
   rw [h5] at h; dsimp only at h
   cases h6 : (getField cx.penv "eventlistener" sec "redirect_stderr" [] (hereExps cx) >>= asBool) with
-  | error e => rw [h6] at h; contradiction
+  | error e => rw [h6] at h; cases h
   | ok red =>
   rw [h6] at h; dsimp only at h
   by_cases hred : red = true
-  · rw [if_pos hred] at h; contradiction
+  · rw [if_pos hred] at h; cases h
   rw [if_neg hred] at h
-  cases h7 : processesFromSection cx .listener sec (afterPrefix "eventlistener:" sec.name) (afterPrefix "eventlistener:" sec.name) with
+  cases h7 : processesFromSection cx .listener sec (afterPrefix "eventlistener:" sec.name) poolName with
   | error e => rw [h7] at h; cases h
   | ok ps =>
   rw [h7] at h
@@ -490,10 +493,13 @@ theorem listenerGroup_ok (cx : Ctx) (sec : Section) (g : GConfig) (h : listenerG
   subst h
   have hred' : red = false := by cases red <;> simp_all
   subst hred'
-  refine ⟨names, evs, rfl, ?_, h5, rfl, rfl, ?_, rfl, rfl⟩
+  refine ⟨names, evs, rfl, rfl, ?_, h5, rfl, rfl, ?_, ?_, rfl, h7⟩
   · intro e; rw [e] at hne; exact hne rfl
   · simp only [pgfp_g5, ilt_iff, Bool.not_eq_true, ilt_false_iff] at hb; show 1 ≤ bs; omega
-
+  · show handler ∈ cx.handlers
+    have : cx.handlers.contains handler = true := by
+      cases hc : cx.handlers.contains handler <;> simp_all
+    exact List.contains_iff_mem.mp this
 
 /-! ### heterogeneous groups -/
 
